@@ -99,6 +99,11 @@ def idGenState : Nat → UInt64
 /-- The id returned by the `n`-th call (0-based) of `Next` on a fresh generator. -/
 def idGenSeq (n : Nat) : UInt64 := (idGenNext (idGenState n)).2
 
+/-- The generator counter after `k` further calls of `Next` from counter value `s`. -/
+def nextIter : Nat → UInt64 → UInt64
+  | 0, s => s
+  | k + 1, s => nextIter k (idGenNext s).1
+
 /-- Run `UpdateLastRecvID` over a sequence of received ids, from `lastRecvID = last`;
     returns the answers and the final `lastRecvID`. -/
 def recvRun : UInt64 → List UInt64 → List Bool × UInt64
